@@ -160,6 +160,48 @@ func init() {
 			return nil, true
 		},
 		"Yield": func(fr *frame, a []value) (value, bool) { fr.i.yield(); return nil, true },
+		// Concurrent(f1, f2): the two functions are logged as two activities and
+		// run one after the other (natively they run on two goroutines under the
+		// race detector).
+		"Concurrent": func(fr *frame, a []value) (value, bool) {
+			i := fr.i
+			if i.acc == nil {
+				i.acc = &accessLog{cells: map[interface{}]map[int]*actAcc{}}
+			}
+			i.acc.cur = 1
+			call(i, fr, token.NoPos, a[0], nil)
+			i.acc.cur = 2
+			call(i, fr, token.NoPos, a[1], nil)
+			i.acc.cur = 0
+			return nil, true
+		},
+		// Activity(n): attribute subsequent heap accesses to activity n (0 = off).
+		"Activity": func(fr *frame, a []value) (value, bool) {
+			i := fr.i
+			if i.acc == nil {
+				i.acc = &accessLog{cells: map[interface{}]map[int]*actAcc{}}
+			}
+			i.acc.cur = int(asInt64(a[0]))
+			return nil, true
+		},
+		// Races: number of conflicting cells between the logged activities;
+		// RaceText(k) describes the k-th.
+		"Races": func(fr *frame, a []value) (value, bool) { return len(fr.i.races()), true },
+		"RaceText": func(fr *frame, a []value) (value, bool) {
+			rs := fr.i.races()
+			k := int(asInt64(a[0]))
+			if k < len(rs) {
+				return rs[k], true
+			}
+			return "", true
+		},
+		// PollValue: inside a "poll" hook, the current value of the polled cell.
+		"PollValue": func(fr *frame, a []value) (value, bool) {
+			if fr.i.pollCell == nil {
+				return int64(0), true
+			}
+			return *fr.i.pollCell, true
+		},
 		"AtomicYield": func(fr *frame, a []value) (value, bool) {
 			fr.i.sched.atomicYield = a[0].(bool)
 			return nil, true
